@@ -162,6 +162,10 @@ func (server *SugarDB) handleCommand(ctx context.Context, message []byte, conn *
 		synchronize = subCommand.Sync
 		handler = subCommand.HandlerFunc
 	}
+	if handler == nil {
+		// A command that only exists through its subcommands (ACL, PUBSUB, COMMAND, MODULE) was sent without one.
+		return nil, fmt.Errorf("command %s requires a subcommand", cmd[0])
+	}
 
 	if conn != nil && server.acl != nil && !embedded {
 		// Authorize connection if it's provided and if ACL module is present
